@@ -21,9 +21,9 @@ def ptypes(*want):
 
 # ------------------------------------------------------------------------------------------------ type models
 T_COMMON = [(r'tdims$|^std::array<long, \d+>', 'struct nv_dims'),
-            (r'tensor_t<nano::tensor_vector_storage_t, (double|long), \d|tensor_vector_storage_t<(double|long), \d|tensor_base_t<(double|long), \d', 'struct nv_tensor'),
+            (r'tensor_t<nano::tensor_vector_storage_t, (double|long|signed char), \d|tensor_vector_storage_t<(double|long|signed char), \d|tensor_base_t<(double|long|signed char), \d', 'struct nv_tensor'),
             (r'ios_base::iostate$|_Ios_Iostate$', 'int32_t'),
-            (r'Matrix<(double|long), -1, 1, 0.*>::Scalar$', 'NV_SCALAR')]
+            (r'Matrix<(double|long|signed char), -1, 1, 0.*>::Scalar$', 'NV_SCALAR')]
 T_STL = [(r'^std::string$|^std::basic_string<char>$', 'struct nv_string'), (r'^std::vector<int>$', 'struct nv_vec_i32'),
          (r'basic_string<char>::iterator$|__normal_iterator<char \*', 'struct nv_sit'), (r'vector<int>::iterator$|__normal_iterator<int \*', 'struct nv_vit'),
          (r'basic_string<char>::size_type$', 'uint64_t')]
@@ -88,10 +88,11 @@ C_OUT = [(r'^write\|std::ostream &\(std::ostream &, const char \*, const unsigne
          (r'^write\|std::ostream &\(std::ostream &, unsigned long\)', '(*write_u64({&0}, {1}))'),
          (r'^write\|std::ostream &\(std::ostream &, const double \*, const long\)', '(*write_ptr_f64({&0}, {1}, {2}))'),
          (r'^write\|std::ostream &\(std::ostream &, const long \*, const long\)', '(*write_ptr_i64({&0}, {1}, {2}))'),
+         (r'^write\|std::ostream &\(std::ostream &, const signed char \*, const long\)', '(*write_ptr_i8({&0}, {1}, {2}))'),
          (r'^write_cast\|std::ostream &\(std::ostream &, const long \*, const unsigned long\)', '(*write_cast_n({&0}, {1}, {2}))'),
          (r'^operator!\|bool \(\) const\|std::basic_ios<char>', 'nv_oios_not({&0})'),
          (r'^hash_version\|', 'hash_version()'),
-         (r'^hash\|uint64_t \(const (double|long) \*, const long\)', 'nv_hash({0}, {1})')]
+         (r'^hash\|uint64_t \(const (double|long|signed char) \*, const long\)', 'nv_hash({0}, {1})')]
 M_OUT = [(r'^size\|std::basic_string_view<char>|^size\|std::string_view', '{self}->n'), (r'^data\|std::basic_string_view<char>|^data\|std::string_view', '{self}->p'),
          (r'^setstate\|std::basic_ios<char>', 'nv_oios_setstate({self}, {0})'),
          (r'^write\|std::(basic_)?ostream', '(*nv_ostream_write({self}, {0}, {1}))'),
@@ -246,6 +247,9 @@ def build(tier):
         targets.append(Target(f'tensor_write_{tag}_{rank}', [tensor_write('tensor_write', scalar, rank)] + wdeps, pre, loops=0, unwind=NV_UNWIND, cbmc_flags=CADICAL))
         if rank == 1:   # exact arithmetic (no product); for rank >= 2 the product is uninterpreted and a counterexample could be spurious
             targets.append(Target(f'tensor_read_dims_{tag}_{rank}', [tensor_read('tensor_read_dims', scalar, rank)] + deps(), pre, loops=0, unwind=NV_UNWIND, cbmc_flags=CADICAL))
+    # the writer without the "dims fit int32" precondition, on the 1-byte scalar instance (a 2 GiB tensor): FAILS (genuine defect)
+    targets.append(Target('tensor_write_dims_i8_1', [tensor_write('tensor_write_dims', 'signed char', 1), write_u32(), write_u64(), write_i32(), write_castn(),
+                                                     wr_ptr('write_ptr_i8', 'signed char'), hash_version()], D + 'tensor_i8_1.h', loops=0, unwind=NV_UNWIND, cbmc_flags=CADICAL))
     return {
         'targets': targets, 'vcs': lemma_vcs(),
         'decided': [
@@ -258,14 +262,20 @@ def build(tier):
             'core/stream.h: read/write of scalars, arrays, read_cast/write_cast (symbolic count, loop contracts), read(string), read(vector<int32>): exact bytes consumed, values = stored values, '
             'failure and truncation propagate (never good after a short or failed read)',
             'detail::hash: memory safe, terminates, hash of nothing is 0, one element = hash_combine(0, bits); hash_combine injective in its second argument',
-            'configurable_t::read/write: truncated / failed / newer-version stream => exception, normal return => stream good, versions stored in order, parameter list read once right after them',
+            'configurable_t::read/write: truncated / failed / newer-version stream => exception, normal return => stream good, versions stored in order, parameter list read once right after them; '
+            'a complete header of the same or an older version always reaches the parameter list',
+            'parameter range readers/writers (src/parameter.cpp, int64 range and pair range): throw unless every field was transferred on a good stream; members <-> wire fields in the same order '
+            'in reader and writer (value(s), min, max, minLE, maxLE[, valueLE]); write(string_view): uint32 length + chars',
+            'GENUINE DEFECTS kept as failing obligations: tensor_read_dims_* (reader does not validate dims: a negative dim reaches istream::read as a negative count / is accepted) and '
+            'tensor_write_dims_i8_1 (writer narrows a dimension >= 2^31 to int32 and reports success); both replayed on the real code',
         ],
         'not_decided': [
             'bit-identical predictions of re-read models (object graphs: learners, gboost, wlearners)',
             'detection of altered payload bytes is only as strong as the 64-bit hash: proved is that the comparison is made on exactly the payload, not that collisions are impossible',
             'header corruption is not covered by the hash at all (a corrupted dim of an empty tensor is accepted: format property, shown natively in the replay)',
             'tensor_read_dims for rank >= 2: the product is uninterpreted there, a counterexample could be spurious; the defect is shown at rank 1 (exact) and natively for rank 2 and 4',
-            'parameter_t::read / write (variant storage, switch over the type tag), read(unique_ptr<T>) (factory lookup), write(vector<T>) (std::any_of + lambda), read(vector<string>)',
+            'parameter_t::read / write themselves (variant storage, switch over the type tag, enum/string payloads), double-valued ranges, read(unique_ptr<T>) (factory lookup), '
+            'write(vector<T>) (std::any_of + lambda), read(vector<string>), feature / learner / model readers (per-field critical(!read...) pattern only)',
         ],
         'assumptions': [
             'std::istream::read(dst, n): failed stream extracts nothing; if len-pos >= n stores the n bytes at pos and advances, else sets fail and never reads at or beyond len (stub nv_istream_read)',
@@ -280,6 +290,9 @@ def build(tier):
             'std::string / std::vector resize(n): throws or holds exactly n elements; containers abstracted to the element at a ghost index',
             'read/write of std::vector<parameter_t> inside configurable_t: throws, fails or consumes >= 8 bytes (stub nv_read_parameters / nv_write_parameters)',
             'nano::major/minor/patch_version are arbitrary constants',
+            'make_comp(flag) = flag != 0 ? LE : LT, make_flag(comp) = comp is LE ? 1 : 0 (one-liners over std::variant, stubs nv_make_comp / nv_make_flag)',
+            'nano::write(stream, string_view) inside the parameter writers: two fields (length, chars) or failure (stub nv_write_name; the real function is verified in target write_string)',
+            'write(string_view) precondition: the length fits the uint32 it is stored in',
             'x86-64 little endian; int = 32, long = 64 bits (type_facts.cpp)',
         ],
         'trusted': [],
@@ -293,6 +306,31 @@ def replay(rp):
     import re
     import replaylib
     out = {'reproduced': False, 'runs': []}
+    if rp.get('target') == 'tensor_write_dims_i8_1':
+        # the verifier's dimension if a block of that many bytes can be mapped here (<= 4 GiB), then the smallest one: 2^31
+        exe = replaylib.build_header_only('replay/C15_replay.cpp', 'C15_replay')
+        cands = []
+        for fo in rp['failed_obligations']:
+            for k, v in (fo.get('counterexample') or {}).items():
+                if re.search(r'm_dims\.d\[0l?\]$', k):
+                    try:
+                        d = int(str(v).rstrip('l'))
+                        if 2147483648 <= d <= 4294967296 and d not in cands:
+                            cands.append(d)
+                    except ValueError:
+                        pass
+        if 2147483648 not in cands:
+            cands.append(2147483648)
+        for d in cands:
+            try:
+                rc, so, se = replaylib.run_driver(exe, ['big_dim', d], timeout=300)
+            except Exception as e:
+                out['runs'].append({'dim': d, 'error': repr(e)})
+                continue
+            out['runs'].append({'dim': d, 'exit': rc, 'output': so.strip()})
+            if rc == 1:
+                out['reproduced'] = True
+        return out
     m = re.match(r'tensor_read(_dims)?_(f64|i64)_(\d)$', rp.get('target', ''))
     if not m:
         out['note'] = 'no native driver for this target: the replay file carries the verifier output only'
